@@ -181,6 +181,7 @@ func (x *ChanPubSub[C, V]) Send(value V) (sent int) {
 
 	// N.B. released after sending (after pings, before waiting for pongs)
 	x.sendingMu.Lock()
+	verifPoint(verifPubSubSendLocked)
 	var skipSendingUnlock bool
 	defer func() {
 		if !skipSendingUnlock {
@@ -216,6 +217,7 @@ func (x *ChanPubSub[C, V]) Send(value V) (sent int) {
 
 	skipSendingUnlock = true
 	x.sendingMu.Unlock() // we can add subscribers while waiting for pongs
+	verifPoint(verifPubSubPongPhase)
 
 	// pong! (await appropriate number of calls to Wait)
 	if sent != 0 {
@@ -297,6 +299,7 @@ func (x *ChanPubSub[C, V]) Add(delta int) (subscribers int) {
 			x.checkBroken() // attempts to mitigate deadlock risk on misuse...
 			ok = x.sendingMu.TryRLock()
 		}
+		verifPoint(verifPubSubNegDecided)
 		subscribers = x.addSubscribers(delta)
 		if ok {
 			x.sendingMu.RUnlock() // unlock, before possible panics
